@@ -173,13 +173,35 @@ func checkLHS(
 	return nil
 }
 
+// fieldOwnerType returns the type whose field a selector x.f denotes: the type of x, or - when f is
+// promoted from an embedded struct (w.F with type W struct{ T }) - the embedded type that declares it
+func fieldOwnerType(info *types.Info, selector *ast.SelectorExpr) types.Type {
+	owner := info.TypeOf(selector.X)
+	selection := info.Selections[selector]
+	if selection == nil || selection.Kind() != types.FieldVal {
+		return owner
+	}
+	path := selection.Index()
+	for _, fieldIndex := range path[:len(path)-1] {
+		if ptr, ok := types.Unalias(owner).Underlying().(*types.Pointer); ok {
+			owner = ptr.Elem()
+		}
+		embedding, ok := types.Unalias(owner).Underlying().(*types.Struct)
+		if !ok || fieldIndex >= embedding.NumFields() {
+			return info.TypeOf(selector.X)
+		}
+		owner = embedding.Field(fieldIndex).Type()
+	}
+	return owner
+}
+
 func checkFieldAssignment(
 	ctx *checkerContext,
 	stmt *ast.AssignStmt,
 	selector *ast.SelectorExpr,
 ) *ImmutableViolation {
 	// Get type of the receiver (t in t.field)
-	receiverType := ctx.pass.TypesInfo.TypeOf(selector.X)
+	receiverType := fieldOwnerType(ctx.pass.TypesInfo, selector)
 	if receiverType == nil {
 		return nil
 	}
@@ -237,7 +259,7 @@ func checkIndexAssignment(
 		return nil
 	}
 
-	receiverType := ctx.pass.TypesInfo.TypeOf(selector.X)
+	receiverType := fieldOwnerType(ctx.pass.TypesInfo, selector)
 	if receiverType == nil {
 		return nil
 	}
@@ -317,7 +339,7 @@ func checkFieldIncDec(
 	node *ast.IncDecStmt,
 	selector *ast.SelectorExpr,
 ) *ImmutableViolation {
-	receiverType := ctx.pass.TypesInfo.TypeOf(selector.X)
+	receiverType := fieldOwnerType(ctx.pass.TypesInfo, selector)
 	if receiverType == nil {
 		return nil
 	}
@@ -442,7 +464,7 @@ func checkCompoundLHS(
 		return nil
 	}
 
-	receiverType := ctx.pass.TypesInfo.TypeOf(selector.X)
+	receiverType := fieldOwnerType(ctx.pass.TypesInfo, selector)
 	if receiverType == nil {
 		return nil
 	}
